@@ -13,7 +13,7 @@ THOROUGH = [("pipe_thorough", 12000), ("pt_thorough", 10000), ("pipe_ref_thoroug
             ("pipe_quick", 8000), ("pt_quick", 6000)]
 
 FORMULAS = {
-    "C01": ["NoLeak", "AtMostOne", "NameStable", "Quiescent", "Tie"],
+    "C01": ["NoLeak", "AtMostOne", "NameStable", "Quiescent", "Tie", "RefKept"],
     "C04": ["Observed.Complete"],
     "C03": ["FailSafe.Writes", "FailSafe.Refs", "NeverDeleteDesired", "NeverDeleteDesired.Made", "GcExact.Missed", "GcExact.Extra"],
     "C02": ["ForeignUntouched"],
